@@ -115,7 +115,7 @@ def run_script(chunks, rnd):
     from syne_tune.constants import ST_WORKER_ITER, ST_WORKER_TIMESTAMP
     buf = io.StringIO()
     rec_chunks, sent = [], []
-    rejected_ok, rejected_silent = True, True
+    rejected_ok, rejected_silent, good_ok = True, True, True
     with contextlib.redirect_stdout(buf):
         report = Reporter()
         for ch in chunks:
@@ -127,7 +127,15 @@ def run_script(chunks, rnd):
                 d = {rich_key(rnd): rich_value(rnd) for _ in range(rnd.randrange(1, 4))}
                 d["payload"] = concretise(ch["tok"], rnd, False)          # the token string TLC chose, inside a JSON string
                 d = {k: v for k, v in d.items() if v is not None}
-                report(**d)
+                try:
+                    report(**d)
+                except Exception:
+                    # the code under test refused a report the property promises to deliver (judged by the specification)
+                    good_ok = False
+                    written = buf.getvalue()[len(before):]
+                    if written:
+                        rec_chunks.append({"kind": "noise", "tok": tokenize(written), "pay": []})
+                    continue
                 text = buf.getvalue()[len(before):]
                 tok = tokenize(text)
                 rec_chunks.append({"kind": "report", "tok": tok, "pay": tok[2:-2]})
@@ -162,7 +170,7 @@ def run_script(chunks, rnd):
         user = {k: v for k, v in g.items() if not k.startswith("st_")}
         eq.append(i < len(sent) and (sent[i] is None or same(user, plain(sent[i]))))
     return {"chunks": rec_chunks, "nret": len(got), "eq": eq, "iters": iters, "stamps": stamps,
-            "rejected_ok": rejected_ok, "rejected_silent": rejected_silent, "text": text[:600]}
+            "rejected_ok": rejected_ok, "rejected_silent": rejected_silent, "good_ok": good_ok, "text": text[:600]}
 
 
 def gen_streams(seed, num, chunks, pay, noise):
